@@ -128,7 +128,7 @@ func init() {
 			"quick":    "0-2 plain puts before the batch (rotated by a symbolic DataFileSize), K=2-3 batch calls over {Put,Delete,Get}, pool of 2 symbolic keys, value lengths {0,1,20}, overflow flush mid-batch; plus: skip-list (pool of 3 keys), mmap, multi-shard, configuration as a choice point",
 			"thorough": "K=3-4 batch calls, pool 2-3 keys of 1-2 bytes, every IndexType, overflow flushes, Sync batch on mmap",
 		},
-		Outside: "batches longer than K calls; I/O errors; concurrent users of one Batch object",
+		Outside: "batches longer than K calls; I/O errors; concurrent users of one Batch object; batches with more than a handful of operations (a staging-table defect beyond 65536 staged records, seeded change S123, is outside the bound)",
 		Stubs:   stubsCommon,
 	})
 }
@@ -492,7 +492,7 @@ func init() {
 			"quick":    "K=2-3 mutations over {Put,Delete,Sync,batch<=2}, pool of 2 symbolic keys, value lengths {0,1}, SyncStrategy No/Always/Threshold (BytesPerSync symbolic), rotation by symbolic DataFileSize; crash before every FS op; process death and power loss with every tail length; one more Put + clean restart after recovery; plus: B-tree/skip-list and multi-shard jobs; a batch larger than DataFileSize; power loss under mmap (the unsynced tail of the mapped file is cut); a SECOND crash (process death) after the recovered database has written a value of symbolic length class",
 			"thorough": "K=3 everywhere, value length 25 (multi-chunk), Sync batches, B-tree",
 		},
-		Outside: "torn sectors / garbage tails (C12 covers damaged bytes); mmap power loss; crashes during Open itself; I/O errors",
+		Outside: "torn sectors / garbage tails (C12 covers damaged bytes); mmap power loss; crashes during Open itself; I/O errors; a SECOND crash that is a power loss (the crash after recovery is a process death); seeded change S122 lives there",
 		Stubs:   stubsCommon,
 	})
 }
@@ -698,7 +698,7 @@ func init() {
 			"quick":    "garbage files of every size 0..16 with fully symbolic content through NextLogRecord/NextHintRecord/ReadRecordValue(at any offset)/ReadMergeFinRecord; databases of K=1-2 ops (Put/Delete/batch, rotated files, multi-chunk value, finished merge awaiting adoption incl. hint file and marker) with every single-site damage of every file, then Open, Get of every key, Fold, ListKeys",
 			"thorough": "garbage up to 40 bytes, K=3 histories, mmap reader",
 		},
-		Outside: "CRC-32 collisions; multi-site damage that also rewrites the checksum; adversarial splicing of valid chunks; damage while the database is open",
+		Outside: "CRC-32 collisions; multi-site damage that also rewrites the checksum; adversarial splicing of valid chunks; damage while the database is open; the oracle accepts any value that was once written for the key (a truncated log legitimately rolls back), so damage that makes the engine silently fall back to an OLDER value is noticed only through vanished error paths (reach labels), not as a violation (seeded change S127)",
 		Stubs:   stubsCommon,
 	})
 }
